@@ -1596,9 +1596,12 @@ func (env *LEnv) funCall(ctx context.Context, fun, args *LVal) *LVal {
 	defer env.Runtime.Stack.Pop()
 
 	if npop > 0 {
-		return markTailRec(npop, fun, args)
+		mark := markTailRec(npop, fun, args)
+		mark.source = env.loc // the tail call's own call expression
+		return mark
 	}
 
+	relocated := false
 callf:
 	r := env.call(ctx, fun, args)
 	if r == nil {
@@ -1623,6 +1626,16 @@ callf:
 				return lerr
 			}
 			fun, args = extractMarkTailRec(r)
+			// The next turn is the call written at the tail call's site: an
+			// error raised while re-entering (argument binding, a builtin
+			// rejecting its arguments) is located there, not at the call
+			// that first entered this frame.  The caller's location is put
+			// back when the loop is left.
+			if !relocated {
+				relocated = true
+				defer func(loc *token.Location) { env.loc = loc }(env.loc)
+			}
+			env.loc = r.source
 			// The frame is re-entered for the next turn, so it starts
 			// non-terminal, like a freshly pushed frame.  The previous turn
 			// left Terminal set (its last body form ran in tail position);
